@@ -19,10 +19,12 @@ from props import _plumb
 def run(chk, tier, proof_ok):
     n = 50 if tier == 'quick' else 500
     divs, errs = _plumb.correspondence(chk, n, dict(kinds=('pt',), allow_saveload=True, max_ops=9,
-                                                    ntemps_choices=(2, 3, 4, 5)))
+                                                    ntemps_choices=(2, 3, 4, 5), allow_dynamic=True))
     full = tier == 'thorough' or not proof_ok or bool(divs) or bool(errs)
+    # (dynamically annealed ladders included: the annealer reads the row a sweep has just written and
+    # rewrites the ladder the next sweep is decided with)
     cases = realsearch.gen_cases(chk.seed * 17 + 2, 500 if full else 60, kinds=('pt',), allow_saveload=True,
-                                 ntemps_choices=(2, 3, 4, 5, 6), max_ops=9)
+                                 ntemps_choices=(2, 3, 4, 5, 6), max_ops=9, allow_dynamic=True)
     # directed: clears at every residue of the swap interval, followed by several sweeps
     import random
     import plumbing
